@@ -1,0 +1,295 @@
+//go:build verif
+
+// Ghost lemma drivers for the gvc verifier (/verif): each function composes real API calls so that a
+// property spanning several functions (encode then decode) becomes the postcondition of one function,
+// proved from the callees' contracts only. Compiled only with the build tag `verif`; never called.
+package go9p
+
+// vrtTversion: encode with the constructor, decode the packet again.
+func vrtTversion(fc *Fcall, msize uint32, version string, dotu bool) (perr error, fc2 *Fcall, n int, err error) {
+	perr = PackTversion(fc, msize, version)
+	if perr != nil {
+		return
+	}
+	fc2, n, err = Unpack(fc.Pkt, dotu)
+	return
+}
+
+// vrtRversion: encode with the constructor, decode the packet again.
+func vrtRversion(fc *Fcall, msize uint32, version string, dotu bool) (perr error, fc2 *Fcall, n int, err error) {
+	perr = PackRversion(fc, msize, version)
+	if perr != nil {
+		return
+	}
+	fc2, n, err = Unpack(fc.Pkt, dotu)
+	return
+}
+
+// vrtTauth: encode with the constructor, decode the packet again.
+func vrtTauth(fc *Fcall, fid uint32, uname string, aname string, unamenum uint32, dotu bool) (perr error, fc2 *Fcall, n int, err error) {
+	perr = PackTauth(fc, fid, uname, aname, unamenum, dotu)
+	if perr != nil {
+		return
+	}
+	fc2, n, err = Unpack(fc.Pkt, dotu)
+	return
+}
+
+// vrtTattach: encode with the constructor, decode the packet again.
+func vrtTattach(fc *Fcall, fid uint32, afid uint32, uname string, aname string, unamenum uint32, dotu bool) (perr error, fc2 *Fcall, n int, err error) {
+	perr = PackTattach(fc, fid, afid, uname, aname, unamenum, dotu)
+	if perr != nil {
+		return
+	}
+	fc2, n, err = Unpack(fc.Pkt, dotu)
+	return
+}
+
+// vrtRauth: encode with the constructor, decode the packet again.
+func vrtRauth(fc *Fcall, aqid *Qid, dotu bool) (perr error, fc2 *Fcall, n int, err error) {
+	perr = PackRauth(fc, aqid)
+	if perr != nil {
+		return
+	}
+	fc2, n, err = Unpack(fc.Pkt, dotu)
+	return
+}
+
+// vrtRattach: encode with the constructor, decode the packet again.
+func vrtRattach(fc *Fcall, aqid *Qid, dotu bool) (perr error, fc2 *Fcall, n int, err error) {
+	perr = PackRattach(fc, aqid)
+	if perr != nil {
+		return
+	}
+	fc2, n, err = Unpack(fc.Pkt, dotu)
+	return
+}
+
+// vrtRerror: encode with the constructor, decode the packet again.
+func vrtRerror(fc *Fcall, ename string, errornum uint32, dotu bool) (perr error, fc2 *Fcall, n int, err error) {
+	perr = PackRerror(fc, ename, errornum, dotu)
+	if perr != nil {
+		return
+	}
+	fc2, n, err = Unpack(fc.Pkt, dotu)
+	return
+}
+
+// vrtTflush: encode with the constructor, decode the packet again.
+func vrtTflush(fc *Fcall, oldtag uint16, dotu bool) (perr error, fc2 *Fcall, n int, err error) {
+	perr = PackTflush(fc, oldtag)
+	if perr != nil {
+		return
+	}
+	fc2, n, err = Unpack(fc.Pkt, dotu)
+	return
+}
+
+// vrtRflush: encode with the constructor, decode the packet again.
+func vrtRflush(fc *Fcall, dotu bool) (perr error, fc2 *Fcall, n int, err error) {
+	perr = PackRflush(fc)
+	if perr != nil {
+		return
+	}
+	fc2, n, err = Unpack(fc.Pkt, dotu)
+	return
+}
+
+// vrtTopen: encode with the constructor, decode the packet again.
+func vrtTopen(fc *Fcall, fid uint32, mode uint8, dotu bool) (perr error, fc2 *Fcall, n int, err error) {
+	perr = PackTopen(fc, fid, mode)
+	if perr != nil {
+		return
+	}
+	fc2, n, err = Unpack(fc.Pkt, dotu)
+	return
+}
+
+// vrtRopen: encode with the constructor, decode the packet again.
+func vrtRopen(fc *Fcall, qid *Qid, iounit uint32, dotu bool) (perr error, fc2 *Fcall, n int, err error) {
+	perr = PackRopen(fc, qid, iounit)
+	if perr != nil {
+		return
+	}
+	fc2, n, err = Unpack(fc.Pkt, dotu)
+	return
+}
+
+// vrtRcreate: encode with the constructor, decode the packet again.
+func vrtRcreate(fc *Fcall, qid *Qid, iounit uint32, dotu bool) (perr error, fc2 *Fcall, n int, err error) {
+	perr = PackRcreate(fc, qid, iounit)
+	if perr != nil {
+		return
+	}
+	fc2, n, err = Unpack(fc.Pkt, dotu)
+	return
+}
+
+// vrtTcreate: encode with the constructor, decode the packet again.
+func vrtTcreate(fc *Fcall, fid uint32, name string, perm uint32, mode uint8, ext string, dotu bool) (perr error, fc2 *Fcall, n int, err error) {
+	perr = PackTcreate(fc, fid, name, perm, mode, ext, dotu)
+	if perr != nil {
+		return
+	}
+	fc2, n, err = Unpack(fc.Pkt, dotu)
+	return
+}
+
+// vrtTread: encode with the constructor, decode the packet again.
+func vrtTread(fc *Fcall, fid uint32, offset uint64, count uint32, dotu bool) (perr error, fc2 *Fcall, n int, err error) {
+	perr = PackTread(fc, fid, offset, count)
+	if perr != nil {
+		return
+	}
+	fc2, n, err = Unpack(fc.Pkt, dotu)
+	return
+}
+
+// vrtRread: encode with the constructor, decode the packet again.
+func vrtRread(fc *Fcall, data []byte, dotu bool) (perr error, fc2 *Fcall, n int, err error) {
+	perr = PackRread(fc, data)
+	if perr != nil {
+		return
+	}
+	fc2, n, err = Unpack(fc.Pkt, dotu)
+	return
+}
+
+// vrtTwrite: encode with the constructor, decode the packet again.
+func vrtTwrite(fc *Fcall, fid uint32, offset uint64, count uint32, data []byte, dotu bool) (perr error, fc2 *Fcall, n int, err error) {
+	perr = PackTwrite(fc, fid, offset, count, data)
+	if perr != nil {
+		return
+	}
+	fc2, n, err = Unpack(fc.Pkt, dotu)
+	return
+}
+
+// vrtRwrite: encode with the constructor, decode the packet again.
+func vrtRwrite(fc *Fcall, count uint32, dotu bool) (perr error, fc2 *Fcall, n int, err error) {
+	perr = PackRwrite(fc, count)
+	if perr != nil {
+		return
+	}
+	fc2, n, err = Unpack(fc.Pkt, dotu)
+	return
+}
+
+// vrtTclunk: encode with the constructor, decode the packet again.
+func vrtTclunk(fc *Fcall, fid uint32, dotu bool) (perr error, fc2 *Fcall, n int, err error) {
+	perr = PackTclunk(fc, fid)
+	if perr != nil {
+		return
+	}
+	fc2, n, err = Unpack(fc.Pkt, dotu)
+	return
+}
+
+// vrtRclunk: encode with the constructor, decode the packet again.
+func vrtRclunk(fc *Fcall, dotu bool) (perr error, fc2 *Fcall, n int, err error) {
+	perr = PackRclunk(fc)
+	if perr != nil {
+		return
+	}
+	fc2, n, err = Unpack(fc.Pkt, dotu)
+	return
+}
+
+// vrtTremove: encode with the constructor, decode the packet again.
+func vrtTremove(fc *Fcall, fid uint32, dotu bool) (perr error, fc2 *Fcall, n int, err error) {
+	perr = PackTremove(fc, fid)
+	if perr != nil {
+		return
+	}
+	fc2, n, err = Unpack(fc.Pkt, dotu)
+	return
+}
+
+// vrtRremove: encode with the constructor, decode the packet again.
+func vrtRremove(fc *Fcall, dotu bool) (perr error, fc2 *Fcall, n int, err error) {
+	perr = PackRremove(fc)
+	if perr != nil {
+		return
+	}
+	fc2, n, err = Unpack(fc.Pkt, dotu)
+	return
+}
+
+// vrtTstat: encode with the constructor, decode the packet again.
+func vrtTstat(fc *Fcall, fid uint32, dotu bool) (perr error, fc2 *Fcall, n int, err error) {
+	perr = PackTstat(fc, fid)
+	if perr != nil {
+		return
+	}
+	fc2, n, err = Unpack(fc.Pkt, dotu)
+	return
+}
+
+// vrtRwstat: encode with the constructor, decode the packet again.
+func vrtRwstat(fc *Fcall, dotu bool) (perr error, fc2 *Fcall, n int, err error) {
+	perr = PackRwstat(fc)
+	if perr != nil {
+		return
+	}
+	fc2, n, err = Unpack(fc.Pkt, dotu)
+	return
+}
+
+// vrtRstat: encode with the constructor, decode the packet again.
+func vrtRstat(fc *Fcall, d *Dir, dotu bool) (perr error, fc2 *Fcall, n int, err error) {
+	perr = PackRstat(fc, d, dotu)
+	if perr != nil {
+		return
+	}
+	fc2, n, err = Unpack(fc.Pkt, dotu)
+	return
+}
+
+// vrtTwstat: encode with the constructor, decode the packet again.
+func vrtTwstat(fc *Fcall, fid uint32, d *Dir, dotu bool) (perr error, fc2 *Fcall, n int, err error) {
+	perr = PackTwstat(fc, fid, d, dotu)
+	if perr != nil {
+		return
+	}
+	fc2, n, err = Unpack(fc.Pkt, dotu)
+	return
+}
+
+// vrtRwalk: encode with the constructor, decode the packet again.
+func vrtRwalk(fc *Fcall, wqids []Qid, dotu bool) (perr error, fc2 *Fcall, n int, err error) {
+	perr = PackRwalk(fc, wqids)
+	if perr != nil {
+		return
+	}
+	fc2, n, err = Unpack(fc.Pkt, dotu)
+	return
+}
+
+// vrtSetTag: a tag set afterwards appears at its wire position and decodes; nothing else is disturbed.
+func vrtSetTag(fc *Fcall, fid uint32, tag uint16, dotu bool) (perr error, fc2 *Fcall, n int, err error) {
+	perr = PackTclunk(fc, fid)
+	if perr != nil {
+		return
+	}
+	SetTag(fc, tag)
+	fc2, n, err = Unpack(fc.Pkt, dotu)
+	return
+}
+
+// vrtRreadTwoStep: the InitRread / SetRreadCount form of Rread.
+func vrtRreadTwoStep(fc *Fcall, count uint32, actual uint32, dotu bool) (perr error, fc2 *Fcall, n int, err error) {
+	perr = InitRread(fc, count)
+	if perr != nil {
+		return
+	}
+	SetRreadCount(fc, actual)
+	fc2, n, err = Unpack(fc.Pkt, dotu)
+	return
+}
+
+// vrtDir: a stat record encoded and decoded on its own.
+func vrtDir(d *Dir, dotu bool) (b []byte, d2 *Dir, rest []byte, amt int, err error) {
+	b = PackDir(d, dotu)
+	d2, rest, amt, err = UnpackDir(b, dotu)
+	return
+}
